@@ -228,6 +228,35 @@ def run(ctx):
            f"the traceback must start in the state of the table that holds the maximum: {want_s}", ao.lineno)
     ctx.ob("R3.start-states", PW, "align_optimal", "local affine start: MATCH_STATE", "np.full(len(i_list), 1)" in t
            and en["TraceState"]["MATCH_STATE"] == 1, "local alignments end with a match", ao.lineno, nontrivial=False)
+    # ---- set-up of align_optimal -------------------------------------------------------------
+    from ..lints import alphabets_fit_matrix
+    from ..exprnorm import local_value
+    alphabets_fit_matrix(ctx, PW, "align_optimal", "R3.alphabets-checked")
+    # linear vs affine: decided by the TYPE of gap_penalty alone (an (open, ext) tuple with equal values is still affine: the affine
+    # model forbids a gap in one sequence directly after a gap in the other, the linear one does not)
+    ap = local_value(ao, "affine_penalty")
+    ctx.ob("R3.penalty-dispatch", PW, "align_optimal", "affine_penalty = (type(gap_penalty) is tuple)",
+           ap is not None and (same_expr(ap, "False if type(gap_penalty) == int else True") or same_expr(ap, "True if type(gap_penalty) == tuple else False")
+                               or same_expr(ap, "False if type(gap_penalty) == int else (True if type(gap_penalty) == tuple else affine_penalty)")),
+           "an integer penalty selects the linear algorithm, a tuple the affine one - nothing else; the code computes "
+           + (ast.unparse(ap)[:120] if ap is not None else "nothing"), ao.lineno)
+    nv = local_value(ao, "neg_inf")
+    ctx.ob("R3.sentinel-headroom", PW, "align_optimal", "neg_inf = INT32_MIN - gap_open - gap_ext - min(0, min score)",
+           nv is not None and same_expr(nv, "np.iinfo(np.int32).min - gap_open - gap_ext - (np.min(matrix.score_matrix()) if np.min(matrix.score_matrix()) < 0 else 0)"),
+           "the 'minus infinity' of forbidden transitions must stay above INT32_MIN when a gap penalty or a negative score is added, and must not "
+           "be raised by a positive minimum score (INT32_MIN - open - ext - positive wraps around to a huge positive score); the code computes "
+           + (ast.unparse(nv)[:160] if nv is not None else "nothing"), ao.lineno)
+    # every traceback start works on a buffer of its own
+    ftc = [c for c in calls(ao) if call_name(c) == "follow_trace"]
+    fresh = False
+    for lp in ast.walk(ao):
+        if isinstance(lp, ast.For) and any(c in ast.walk(lp) for c in ftc):
+            k_call = min(k for k, st in enumerate(lp.body) if any(c in ast.walk(st) for c in ftc))
+            fresh = any(isinstance(st, ast.Assign) and same_expr(st.targets[0], "trace")
+                        and same_expr(st.value, "np.full((i_start + 1 + j_start + 1, 2), -1, dtype=np.int64)") for st in lp.body[:k_call])
+    ctx.ob("R4.trace-buffer-per-start", PW, "align_optimal", "trace = np.full((i_start + 1 + j_start + 1, 2), -1) inside the loop over the starts", fresh,
+           "follow_trace fills the buffer from the start cell backwards and the unused rows must be -1: each start needs a fresh buffer of "
+           "its own maximal length (a shared one leaks rows of an earlier, longer path)", ao.lineno)
     # the reported score: every binding of max_score is the maximum of the table(s) the traceback starts from, and it is what
     # every returned Alignment carries
     def _canon_max(e):
@@ -266,6 +295,13 @@ def run(ctx):
 
 
 MUTANTS = [
+    Mutant("alphabet-check-both-must-fail", PW, "        or not matrix.get_alphabet2().extends(seq2.get_alphabet()):\n            raise ValueError(\"The sequences' alphabets do not fit the matrix\")\n    # Check if gap penalty is linear or affine\n    if type(gap_penalty) == int:\n        if gap_penalty > 0:",
+           "        and not matrix.get_alphabet2().extends(seq2.get_alphabet()):\n            raise ValueError(\"The sequences' alphabets do not fit the matrix\")\n    # Check if gap penalty is linear or affine\n    if type(gap_penalty) == int:\n        if gap_penalty > 0:", "R3.alphabets-checked"),
+    Mutant("sentinel-raised-by-positive-minimum", PW, "        neg_inf = np.iinfo(np.int32).min - gap_open - gap_ext\n        min_score = np.min(matrix.score_matrix())\n        if min_score < 0:\n            neg_inf -= min_score\n",
+           "        min_score = np.min(matrix.score_matrix())\n        neg_inf = np.iinfo(np.int32).min - gap_open - gap_ext - min_score\n", "R3.sentinel-headroom"),
+    Mutant("equal-penalties-linear", PW, "                raise ValueError(\"Gap penalty must be negative\")\n        affine_penalty = True\n",
+           "                raise ValueError(\"Gap penalty must be negative\")\n        affine_penalty = gap_penalty[0] != gap_penalty[1]\n", "R3.penalty-dispatch"),
+    Mutant("trace-buffer-shared", PW, "        trace = np.full(( i_start+1 + j_start+1, 2 ), -1, dtype=np.int64)\n", "", "R4.trace-buffer-per-start"),
     Mutant("fill-linear-last-row-skipped", PW, "    for i in range(1, score_table.shape[0]):\n", "    for i in range(1, score_table.shape[0]-1):\n", "R3.fill-range", qualname="_fill_align_table"),
     Mutant("linear-tie-lost", TT, "            trace = (\n                TraceDirectionLinear.MATCH |\n                TraceDirectionLinear.GAP_LEFT |\n                TraceDirectionLinear.GAP_TOP\n            )",
            "            trace = (\n                TraceDirectionLinear.MATCH |\n                TraceDirectionLinear.GAP_LEFT\n            )", "R1.argmax-flags"),
